@@ -273,8 +273,164 @@ def _check_case(ctx, sf, prefix, op, n, backend, cutoff=8):
                          f"mode {t} is not in the documented post-state after {op['cls']} on {backend} (distance {d:.3g})", rp)
 
 
+def _components_moments(w, mus, covs, hbar):
+    """(alpha, N, M) of the (unnormalised) weighted sum of Gaussians with xpxp-ordered means / covariances"""
+    w = np.asarray(w, dtype=complex)
+    tot = np.sum(w)
+    n = mus.shape[1] // 2
+    perm = list(range(0, 2 * n, 2)) + list(range(1, 2 * n, 2))
+    mu = np.einsum("k,ki->i", w, mus) / tot
+    second = np.einsum("k,kij->ij", w, covs + np.einsum("ki,kj->kij", mus, mus)) / tot
+    V = (second - np.outer(mu, mu))[np.ix_(perm, perm)] / (hbar / 2)
+    mu = mu[perm] / math.sqrt(hbar / 2)
+    alpha = (mu[:n] + 1j * mu[n:]) / 2
+    A, B, C = V[:n, :n], V[:n, n:], V[n:, n:]
+    return alpha, 0.25 * (A + C + 1j * (B - B.T) - 2 * np.eye(n)), 0.25 * (A - C + 1j * (B + B.T))
+
+
+def _check_conditional(ctx, sf, prefix, op, n, backend, cutoff=6):
+    """the rest changes only by the conditional update the measurement outcome implies: the reduced state of the other modes
+    after a measurement with outcome m is Tr_T[(P_m x 1) rho] / p(m), computed here from the state before the measurement"""
+    T = list(op["regs"])
+    S = [m for m in range(n) if m not in T]
+    rp = dict(kind="cond", prefix=prefix, op=op, n=n, backend=backend)
+    ctx.oracle_cases += 1
+    spec0, spec1 = dict(n=n, ops=prefix), dict(n=n, ops=prefix + [op])
+    fock = backend.startswith("fock")
+    opts = dict(cutoff_dim=cutoff, pure=(backend == "fock-pure")) if fock else {}
+    bk = "fock" if fock else backend
+    try:
+        st0, _ = sim.run_spec(sf, spec0, bk, **opts)
+        prog, _ = progs.build(spec1)
+        eng = sf.Engine(bk, backend_options=opts)
+        res = eng.run(prog)
+        st1 = res.state
+        out = {int(k): v for k, v in res.samples_dict.items()}
+    except Exception as e:  # noqa: BLE001
+        if isinstance(e, ZeroDivisionError) and op.get("select") is not None:
+            ctx.tally("skipped:zero-probability")       # only a post-selected outcome may be impossible
+            return
+        ctx.fail(f"raises:{backend}:{op['cls']}:{type(e).__name__}", f"{backend} raised {type(e).__name__}: {e}", rp)
+        return
+    vals = {t: int(np.ravel(out[t])[0]) for t in T}
+    ctx.count(f"cond:{backend}:{op['cls']}", dict(p=prefix, o=op, b=backend), bool(S) and len(T) >= 1,
+              sample=dict(prefix=prefix, op=op, backend=backend, outcome=vals))
+    ctx.tally(f"cond:targets={len(T)}:{'sorted' if T == sorted(T) else 'involution' if all(np.argsort(np.argsort(T)) == np.argsort(T)) else 'cyclic'}")
+    if op.get("select") is not None:
+        want = dict(zip(T, op["select"]))
+        if vals != want:
+            ctx.fail(f"cond-outcome:{backend}:{op['cls']}", f"{op['cls']} | {T} select={op['select']} reported {vals}", rp)
+            return
+    if fock:
+        rho0 = sim.dm_of(st0)
+        if any(v >= cutoff for v in vals.values()):
+            return
+        idx = [slice(None)] * (2 * n)
+        for t, v in vals.items():
+            idx[2 * t] = idx[2 * t + 1] = v
+        proj = rho0[tuple(idx)]                     # modes S ascending, interleaved
+        pr = np.real(sim.reduced_dm(proj, len(S), [])) if S else np.real(proj)
+        tr0 = np.real(sim.reduced_dm(rho0, n, []))
+        if pr / tr0 < 1e-9:
+            ctx.fail(f"cond-impossible-outcome:{backend}", f"{op['cls']} | {T} reported {vals}, whose probability in the state "
+                     f"before the measurement is {pr / tr0:.3g}", rp)
+            return
+        if S:
+            got, _ = spect_dm(st1, S)
+            d = float(np.max(np.abs(got - proj / pr)))
+            if d > 1e-7:
+                ctx.fail(f"cond-update:{backend}:{op['cls']}", f"after {op['cls']} | {T} with outcome {vals} the other modes {S} "
+                         f"are not in the state conditioned on that outcome (distance {d:.3g}) on {backend}", rp)
+        # the measured modes themselves: vacuum
+        for t in T:
+            r, _ = spect_dm(st1, [t])
+            if abs(r[0, 0] - 1) > 1e-7:
+                ctx.fail(f"post-state:{backend}:{op['cls']}", f"mode {t} is not in vacuum after {op['cls']} | {T} on {backend}", rp)
+        return
+    # bosonic MeasureThreshold on one mode: conditional update of a weighted sum of Gaussians, per component
+    t = T[0]
+    h = sf.hbar
+    w, mus, covs = np.asarray(st0.weights()), np.asarray(st0.means()), np.asarray(st0.covs())
+    b = [2 * t, 2 * t + 1]
+    a = [i for m_ in S for i in (2 * m_, 2 * m_ + 1)]
+    W = np.linalg.inv(covs[:, b][:, :, b] + (h / 2) * np.eye(2))
+    rB = mus[:, b]
+    p0 = h * np.exp(-0.5 * np.einsum("ki,kij,kj->k", rB, W, rB)) * np.sqrt(np.linalg.det(W))
+    sAB = covs[:, a][:, :, b]
+    covs0 = covs[:, a][:, :, a] - sAB @ W @ np.transpose(sAB, (0, 2, 1))
+    mus0 = mus[:, a] - np.einsum("kij,kj->ki", sAB @ W, rB)
+    pv = float(np.real(np.sum(w * p0)))
+    if vals[t] == 0:
+        want = _components_moments(w * p0, mus0, covs0, h)
+        pm = pv
+    else:
+        want = _components_moments(np.concatenate([w, -w * p0]), np.concatenate([mus[:, a], mus0]),
+                                   np.concatenate([covs[:, a][:, :, a], covs0]), h)
+        pm = 1 - pv
+    if pm < 1e-9:
+        ctx.fail(f"cond-impossible-outcome:{backend}", f"MeasureThreshold | {T} reported {vals}, probability {pm:.3g}", rp)
+        return
+    m1 = moments(sf, st1, backend)
+    if S:
+        d = sim.moment_dist(restrict(m1, S), want)
+        if d > 1e-7 * max(1.0, float(np.sum(np.abs(w))) / max(pm, 1e-3)):
+            ctx.fail(f"cond-update:{backend}:{op['cls']}", f"after MeasureThreshold | {T} with outcome {vals} the other modes {S} "
+                     f"are not in the state conditioned on that outcome (moment distance {d:.3g}) on {backend}", rp)
+    d = sim.moment_dist(restrict(m1, [t]), (np.zeros(1, complex), np.zeros((1, 1), complex), np.zeros((1, 1), complex)))
+    if d > 1e-7:
+        ctx.fail(f"post-state:{backend}:{op['cls']}", f"mode {t} is not in vacuum after MeasureThreshold on {backend} ({d:.3g})", rp)
+
+
+def check_conditional(ctx, sf, prefix, op, n, backend):
+    try:
+        _check_conditional(ctx, sf, prefix, op, n, backend)
+    except Exception as e:  # noqa: BLE001
+        import traceback
+        where = traceback.extract_tb(e.__traceback__)[-1]
+        ctx.fail(f"evaluation-raises:{backend}:{op['cls']}:{type(e).__name__}",
+                 f"evaluating {op['cls']} on {op['regs']} on {backend} raised {type(e).__name__}: {e} ({where.name}:{where.lineno})",
+                 dict(kind="cond", prefix=prefix, op=op, n=n, backend=backend))
+
+
+def run_conditional(ctx, sf):
+    rng = ctx.rng
+    for it in range(ctx.n(36, 400)):
+        if it % 3 == 2:          # bosonic threshold detection, one mode, Gaussian or cat-state input
+            n = rng.choice([2, 3, 3, 4])
+            prefix = sim.correlated_prefix(rng, n)
+            if rng.random() < 0.4:
+                m = rng.randrange(n)
+                prefix = [dict(cls="Catstate", regs=[m], pars=[round(rng.uniform(0.4, 0.9), 2), sim.angle(rng), rng.choice([0, 1])])] + prefix
+            op = dict(cls="MeasureThreshold", regs=[rng.randrange(n)], pars=[])
+            check_conditional(ctx, sf, prefix, op, n, "bosonic")
+        else:                    # photon counting on 1..3 modes listed in any order (sorted, involutions, 3-cycles)
+            n = rng.choice([3, 3, 4]) if it % 3 == 0 else rng.choice([2, 3])
+            k = rng.randint(1, min(3, n))
+            regs = rng.sample(range(n), k)
+            if it % 6 == 0 and n >= 3:
+                regs = rng.choice([[1, 2, 0], [2, 0, 1]]) if n == 3 else rng.choice([[1, 2, 0], [3, 1, 2], [2, 3, 0], [2, 0, 1]])
+            prefix = sim.correlated_prefix(rng, n)
+            if it % 2:           # number states through beamsplitters: most photon patterns are impossible, none is truncated
+                ks = [rng.choice([0, 1, 2]) for _ in range(n)]
+                while sum(ks) > 4 or sum(ks) == 0 or len(set(ks)) == 1:
+                    ks = [rng.choice([0, 1, 2]) for _ in range(n)]
+                prefix = [dict(cls="Fock", regs=[m], pars=[ks[m]]) for m in range(n)]
+                sp = [m for m in range(n) if m not in regs]
+                for m in sp:     # entangle every spectator with a measured mode
+                    prefix.append(dict(cls="BSgate", regs=[m, rng.choice(regs)], pars=[round(rng.uniform(0.3, 1.2), 3), sim.angle(rng)]))
+                if not sp and n >= 2 and rng.random() < 0.5:
+                    a_, b_ = rng.sample(range(n), 2)
+                    prefix.append(dict(cls="BSgate", regs=[a_, b_], pars=[round(rng.uniform(0.3, 1.2), 3), sim.angle(rng)]))
+            op = dict(cls="MeasureFock", regs=regs, pars=[])
+            if rng.random() < 0.3:
+                op["select"] = [rng.choice([0, 0, 1]) for _ in regs]
+            for backend in (("fock-pure", "fock-mixed") if n <= 3 else ("fock-mixed",) if it % 2 else ("fock-pure",)):
+                check_conditional(ctx, sf, prefix, op, n, backend)
+
+
 def run(ctx, sf):
     sf.hbar = 2
+    run_conditional(ctx, sf)
     simcorr.run_fock_corr(ctx, ctx.n(220, 2200))
     simcorr.run_bos_corr(ctx, ctx.n(100, 1000))
     simcorr.run_gauss_corr(ctx, ctx.n(100, 1000))
@@ -316,5 +472,8 @@ def replay(ctx, rp):
     import strawberryfields as sf
     n0 = len(ctx.failures)
     sf.hbar = 2
+    if rp.get("kind") == "cond":
+        check_conditional(ctx, sf, rp["prefix"], rp["op"], rp["n"], rp["backend"])
+        return len(ctx.failures) > n0
     check_case(ctx, sf, rp["prefix"], rp["op"], rp["n"], rp["backend"])
     return len(ctx.failures) > n0
